@@ -34,6 +34,37 @@ def _failed(id_, function, detail, name=None):
             "reproduced": True, "backend": "CPython (bounded run of the real code under the executable contract)"}
 
 
+class _Timeout(BaseException):
+    """raised by the alarm below; a BaseException so that `except Exception` handlers inside sqlfluff do not swallow it"""
+
+
+class _deadline:
+    """with _deadline(seconds): ...   -- SIGALRM based, main thread of the (worker) process only; no-op elsewhere"""
+
+    def __init__(self, seconds):
+        self.seconds = int(seconds)
+        self.armed = False
+
+    def __enter__(self):
+        import signal
+        import threading
+        if threading.current_thread() is threading.main_thread():
+            def handler(signum, frame):
+                raise _Timeout()
+            self.old = signal.signal(signal.SIGALRM, handler)
+            signal.alarm(self.seconds)
+            self.armed = True
+        return self
+
+    def __exit__(self, *exc):
+        if self.armed:
+            import signal
+            signal.alarm(0)
+            signal.signal(signal.SIGALRM, self.old)
+        return False
+
+
+
 # ====================================================================================================== specification
 def wf_local(m):
     """DESIGN.md A.3 `wf`, the clauses about m itself (every child gets its own apply call, hence its own check):
@@ -359,7 +390,14 @@ def _parse_task(task):
         cfg = FluffConfig(overrides={"dialect": dialect})
         lnt = Linter(config=cfg)
         try:
-            parsed = lnt.parse_string(text)
+            with _deadline(_PARSE_LIMIT_S):
+                parsed = lnt.parse_string(text)
+        except _Timeout:
+            if _TIMEOUTS is not None:
+                with _TIMEOUTS.get_lock():
+                    _TIMEOUTS.value += 1
+            fail("C02/root/timeout", {"what": f"Linter.parse_string did not return within {_PARSE_LIMIT_S} s (parser not terminating?)"})
+            return rec
         except Exception as ex:
             tb = traceback.extract_tb(ex.__traceback__)
             site = next((f"{os.path.basename(f.filename)}:{f.name}" for f in reversed(tb) if "sqlfluff" in f.filename), "?")
@@ -446,10 +484,19 @@ def _parse_task(task):
     return rec
 
 
+_PARSE_LIMIT_S = 60
+_TIMEOUTS = None         # multiprocessing.Value shared by the workers of one real_parses() call: stop parsing after 3 time-outs
+
+
 def _parse_group(tasks):
     import gc
     gc.freeze()          # inherited objects of the parent are never traversed (or copied) by the worker's collector
-    return [_parse_task(t) for t in tasks]
+    out = []
+    for t in tasks:
+        if _TIMEOUTS is not None and _TIMEOUTS.value >= 3:
+            break        # the parser hangs: the remaining inputs are not evaluated (the time-outs are reported as failures)
+        out.append(_parse_task(t))
+    return out
 
 
 def choose_inputs(tier, seed):
@@ -495,6 +542,9 @@ def real_parses(tier, seed):
         for t in tasks:
             groups.setdefault(t[1], []).append(t)
         order = sorted(groups.values(), key=len, reverse=True)
+        global _TIMEOUTS
+        import multiprocessing as mp
+        _TIMEOUTS = mp.get_context("fork").Value("i", 0)
         with _pool() as pool:
             recs = [r for g in pool.map(_parse_group, order) for r in g]
         _CACHE[key] = (recs, round(time.time() - t0, 1))
